@@ -37,6 +37,7 @@ def main(seed, ncases, driver, out):
         key = f"k={k} dim={dim}"; dist[key] = dist.get(key, 0) + 1
         if len(samples) < 2: samples.append(desc)
         idxs = [n for n in itertools.product(range(3), repeat=k)]
+        rnd.shuffle(idxs)                      # any request order: a coefficient does not depend on which lower derivatives happen to be cached
         try:
             S = _sympy_to_BlockSeries(M, syms, check_hermitian=False)
             got = {n: S[n] for n in idxs}
